@@ -8,14 +8,14 @@ Optimality: the negated query asks z3 for a feasible integer flow that is strict
 import importlib
 import itertools
 
-from symx.core import AND, OR, NOT, IMPLIES, ITE, IFF, SNum, ssum, sym_int
+from symx.core import AND, OR, NOT, IMPLIES, ITE, IFF, SNum, ssum, sym_int, smin
 
 PROPERTY = "C09"
 FILES = ["solvor/flow.py", "solvor/network_simplex.py"]
 FUNCTIONS = ["solvor.flow.min_cost_flow", "solvor.flow.solve_assignment", "solvor.network_simplex.network_simplex",
              "solvor.network_simplex._find_join", "solvor.network_simplex._residual"]
 BOUNDS = {
-    "quick": "min_cost_flow: 14 named topologies on 3-5 nodes (DAGs, cycles, anti-parallel pairs with different costs, parallel arcs, zero-cost, "
+    "quick": "min_cost_flow: 16 named topologies on 3-5 nodes (DAGs, cycles, anti-parallel pairs with different costs, parallel arcs, zero-cost, "
              "negative-cost arcs on DAGs), pass cap (capacities, demand unbounded Ints >= 0) and pass cost (costs unbounded Ints, non-negative unless "
              "the topology is a DAG); network_simplex: the same topologies with supply vectors derived from (source, sink, demand) and a "
              "multi-source variant (a transshipment variant in thorough), capacities/supplies symbolic; solve_assignment: every cost matrix of shapes up to 2x3 / 3x2 (3x3 in thorough) with unbounded Int entries",
@@ -94,6 +94,18 @@ def h_mcf(s, n, arcs, source, sink, mode, fixed_costs=None, fixed_caps=None, fix
     if not has_parallel(arcs):
         cost_of = {e: costs[k] for k, e in enumerate(arcs)}
         s.check(res.objective == ssum(cost_of[e] * fl[e] for e in fl), "mcf.objective_is_sum_cost_times_flow")
+    elif mode == "cap":
+        # pooled flow on parallel arcs (costs concrete in this pass): the reported cost must be the cost of the cheapest split of each
+        # pooled flow over its parallel arcs (cheapest arcs filled first) - written with non-forking min()
+        total = 0
+        for e in set(arcs):
+            ks = sorted([k for k, e2 in enumerate(arcs) if e2 == e], key=lambda k: costs[k])
+            left = fl.get(e, 0)
+            for k in ks:
+                use = smin(left, caps[k])
+                total = total + costs[k] * use
+                left = left - use
+        s.check(res.objective == total, "mcf.objective_is_cost_of_cheapest_split_over_parallel_arcs")
     s.check(IMPLIES(feas, res.objective <= ssum(costs[k] * g[k] for k in range(m))), "mcf.no_feasible_flow_is_cheaper")
     s.goal("mcf.optimal")
     s.observe("objective", res.objective)
@@ -186,6 +198,8 @@ TOPO = {
     "antipar3": (3, [(0, 1), (1, 0), (1, 2), (0, 2)], 0, 2, False),
     "antipar4": (4, [(0, 1), (0, 2), (1, 2), (2, 1), (1, 3), (2, 3)], 0, 3, False),
     "parallel3": (3, [(0, 1), (0, 1), (1, 2)], 0, 2, True),
+    "parallel_both3": (3, [(0, 1), (0, 1), (1, 2), (1, 2), (0, 2)], 0, 2, True),
+    "antipar_chain4": (4, [(0, 1), (1, 2), (2, 1), (2, 3), (1, 3), (0, 2), (3, 2)], 0, 3, False),
     "into_source4": (4, [(0, 1), (1, 0), (1, 3), (0, 2), (2, 3)], 0, 3, False),
     "ladder5": (5, [(0, 1), (0, 2), (1, 3), (2, 3), (1, 2), (3, 4), (2, 4)], 0, 4, True),
     "unreachable4": (4, [(0, 1), (2, 3)], 0, 3, True),
@@ -255,8 +269,6 @@ def _topo_of(cex):
 
 
 KNOWN_CLASSES = {
-    "mcf_antiparallel_or_parallel_costs": lambda cex: cex["params"].get("arcs") is not None and "mcf" in cex["label"] and
-    (has_antiparallel(_topo_of(cex)) or has_parallel(_topo_of(cex))),
     "ns_tree_update": lambda cex: cex["label"].startswith("ns.") and cex["label"] in (
         "ns.no_feasible_flow_is_cheaper", "ns.infeasible_only_if_no_feasible_flow"),
 }
